@@ -1,3 +1,64 @@
-From ZV Require Import Lib.Base Model.DocCache.
-Theorem C04_placeholder : True. Proof. exact I. Qed.
-Print Assumptions C04_placeholder.
+(** C04 — Search results do not depend on earlier (or concurrent) searches.
+    Model: Model/DocCache.v — the document loop of indexData.Search over match trees whose docMatchTree /
+    bruteForce nodes carry a cursor (firstDone, docID) living in a heap, d.simplify for Meta atoms, and the
+    per-shard docMatchTreeCache (key -> node BY REFERENCE, bounded size, eviction by an arbitrary choice
+    function) threaded through a HISTORY of searches on one loaded shard.
+    SEQUENTIAL histories only: the concurrent half of the property (interleavings, data races) is not
+    modelled — see C04_concurrent_partial_note in NOTES.md; a -race stress run is supporting evidence. *)
+From ZV Require Import Lib.Base Model.DocCache Proofs.DocCache.
+
+(** One search of the repaired code, started in ANY state reachable by searches (any cache contents that are
+    coherent with the shard, any heap), returns exactly the documents satisfying the query, in document
+    order — for every cache size and every eviction choice. *)
+Theorem C04_search_exact_in_any_state : forall cf s q st,
+  cache_ok s (st_cache st) ->
+  fst (search true cf s q st) = filter (qeval s q) (seq 0 (ndocs s)).
+Proof. intros cf s q st H. exact (proj1 (search_correct cf s q st H)). Qed.
+Print Assumptions C04_search_exact_in_any_state.
+
+(** History independence (full, sequential): for every configuration (cache disabled or enabled at any size,
+    any eviction behaviour), every shard and every sequence of searches on a freshly loaded shard, each search
+    returns exactly what it returns when run alone on a freshly loaded shard. *)
+Theorem C04_history_independent : forall cf s qs,
+  run_history true cf s qs fresh = map (fun q => fst (search true cf s q fresh)) qs.
+Proof.
+  intros cf s qs. rewrite (run_history_correct cf s qs fresh (cache_ok_fresh s)).
+  apply map_ext. intros q. symmetry. exact (proj1 (search_correct cf s q fresh (cache_ok_fresh s))).
+Qed.
+Print Assumptions C04_history_independent.
+
+(** the same in the shape of the property text: the last search of any history = that search alone *)
+Theorem C04_last_equals_alone : forall cf s h q,
+  last (run_history true cf s (h ++ [q]) fresh) [] = hd [] (run_history true cf s [q] fresh).
+Proof.
+  intros cf s h q. rewrite !C04_history_independent, map_app. cbn [map hd]. apply last_last.
+Qed.
+Print Assumptions C04_last_equals_alone.
+
+(** results do not depend on the configuration either (cache size, eviction) *)
+Theorem C04_configuration_independent : forall cf cf' s qs,
+  run_history true cf s qs fresh = run_history true cf' s qs fresh.
+Proof.
+  intros. rewrite !(run_history_correct _ s qs fresh (cache_ok_fresh s)). reflexivity.
+Qed.
+Print Assumptions C04_configuration_independent.
+
+(** The code before the repair (/repo 6b2af41): with the cache enabled the cached node keeps the cursor of the
+    previous search; "meta.k" matching documents 0,1,2 of 4 returns [0;1;2] and then []. *)
+Theorem C04_history_refuted_before_fix :
+  exists cf s h q,
+    last (run_history false cf s (h ++ [q]) fresh) [] <> hd [] (run_history false cf s [q] fresh).
+Proof. exact unfixed_history_dependent. Qed.
+Print Assumptions C04_history_refuted_before_fix.
+
+(** ---- non-vacuity ---- *)
+Example C04_nonvacuous :
+  let s := wit_shard in
+  let q2 := QAnd (QMeta 1) (QAtom (fun d => Nat.eqb d 1 || Nat.eqb d 3)) in
+  let h := [QMeta 1; q2; QOr (QMeta 1) (QAtom (fun d => Nat.eqb d 3)); QMeta 1; QNot (QMeta 1); QMeta 2] in
+  run_history true wit_cf s h fresh = [[0; 1; 2]; [1]; [0; 1; 2; 3]; [0; 1; 2]; [3]; []] /\
+  run_history false wit_cf s h fresh = [[0; 1; 2]; []; [3]; []; [3]; []] /\
+  run_history true {| max_entries := 1; choose := fun n _ => n |} s h fresh = run_history true wit_cf s h fresh /\
+  (* the cache really holds the node after the first search *)
+  length (st_cache (snd (search true wit_cf s (QMeta 1) fresh))) = 1.
+Proof. vm_compute. repeat split. Qed.
